@@ -165,9 +165,14 @@ class Graph(object):
                     "The adjacency matrix of an undirected graph " "must be symmetric."
                 )
 
-        # store adjacency_matrix
-        if copy:
+        # store adjacency_matrix. Explicitly stored zeros are non-edges: they
+        # are dropped, because the csgraph routines read every stored entry
+        # as an edge (of weight zero).
+        has_stored_zeros = adjacency_matrix.nnz != adjacency_matrix.count_nonzero()
+        if copy or has_stored_zeros:
             self.adjacency_matrix = adjacency_matrix.copy()
+            if has_stored_zeros:
+                self.adjacency_matrix.eliminate_zeros()
         else:
             self.adjacency_matrix = adjacency_matrix
 
